@@ -119,8 +119,9 @@
         // @assume: the range start..=start+1 exists (Range::from guarantees stop <= 65535)
         kani::assume(start <= 65534);
         ranged_bytes_iter_contract::<3, 2, 6>(start);
+        // single cover on purpose: while D1 is open it is unreachable, so the only concrete-playback test Kani emits is
+        // the one for the failing overflow check (start = 65534)
         kani::cover!(start == 65534);
-        kani::cover!(start == 0);
     }
 
     // @harness ids=C09,C01 tier=thorough kind=bounded bound="3 strings of 2 bytes / 1 string of 255 bytes / empty sequence; last index < 65535 (the complement of the D1 finding)" units=app::parse::bytes::RangedBytesIterator::next timeout=300 note="the iterator contract holds for every range that does not end at index 65535"
